@@ -781,6 +781,119 @@ def gen_midline_doc(rng):
             'line-height:10px}</style><div id="c" style="%s">%s</div>' % (rng.choice([0, 10]), ';'.join(cst), ''.join(paras)))
 
 
+# ------------------------------------------------------- tie of the waiting-float queue model (model/C11Queue.v)
+PRE_QUEUE = ('From Coq Require Import QArith List Bool.\nRequire Import WV.model.C11Queue.\n'
+             'Import ListNotations.\nOpen Scope Q_scope.\n')
+
+
+def queue_sim(room, items):
+    """Python mirror of C11Queue.run_line, used only to keep the generated text on the first line"""
+    pos, maxx, trail, now, wait, k = 0, room, None, [], [], 0
+    for it in items:
+        if it[0] == 'T':
+            pos += it[1]; trail = it[2]
+        else:
+            if it[1] - (trail or 0) > maxx - pos or wait:
+                wait.append(k)
+            else:
+                now.append(k); maxx -= it[2]
+            k += 1
+    return pos, maxx, trail, now, wait
+
+
+def gen_queue_doc(rng):
+    """one paragraph whose FIRST line holds some words and 2..4 floats met after them (single words between), alone in
+    its block: the room on the line is the block width and every width is known (test font: 10px per character)"""
+    while True:
+        W = rng.choice([100, 150, 200])
+        direction = rng.choice(['ltr', 'ltr', 'rtl'])
+        words = [rng.choice(WORDS[:5]) for _ in range(rng.randint(1, 2))]
+        seg = ' '.join(words) + ' '
+        items = [('T', 10 * len(seg), 10)]
+        html = [seg]
+        room = W - 10 * len(seg) + 10
+        for k in range(rng.randint(2, 4)):
+            width = max(5, rng.choice([room - 10, room, room + 10, room - 30, W, W + 20, 10, 20, 30]))
+            tag = rng.choice(['span', 'span', 'div'])
+            html.append('<%s id="f%d" style="float:%s;width:%dpx;height:%dpx"></%s>' % (
+                tag, k, rng.choice(['left', 'right']), width, rng.choice([10, 15, 20, 30]), tag))
+            items.append(('F', width, width))
+            if width <= room and rng.random() < 0.7:
+                room -= width
+            if rng.random() < 0.35:
+                w = rng.choice(WORDS[:3]) + ' '
+                html.append(w)
+                items.append(('T', 10 * len(w), 10))
+                room -= 10 * len(w)
+        pos, maxx, trail, now, wait = queue_sim(W, items)
+        if pos - (trail or 0) <= maxx:            # all the text stays on the first line
+            break
+    tail = ' '.join(rng.choice(WORDS) for _ in range(rng.randint(0, 6)))
+    doc = ('<style>@page{size:420px 20000px;margin:0}body{margin:0;font-family:weasyprint;font-size:10px;'
+           'line-height:10px}</style><div id="c" style="width:%dpx;direction:%s"><div id="p">%s%s</div></div>'
+           % (W, direction, ''.join(html), (' ' + tail) if False else ''))
+    return dict(html=doc, room=W, items=items, direction=direction)
+
+
+def queue_observed(doc, res):
+    """(rank in source order, laid out at once by _out_of_flow_layout?) for every float, in the order of the
+    float_layout calls (both logged by the wrapper of find_float_position in impl_c11.render_floats)"""
+    floats = [r for r in res['recs'] if r['kind'] == 'float']
+    lines = [r for r in res['recs'] if r['kind'] == 'line']
+    if not lines or any(f.get('seq') is None or f.get('placed') is None for f in floats):
+        return None
+    ranks = {f['idx']: k for k, f in enumerate(sorted(floats, key=lambda f: f['src']))}
+    return [(ranks[f['idx']], f.get('via') == 'at-once') for f in sorted(floats, key=lambda f: f['seq'])]
+
+
+def coq_queue_case(doc, obs):
+    its = '; '.join(('Txt %s %s' % (qlit(i[1]), qlit(i[2]))) if i[0] == 'T' else ('Flt %s %s' % (qlit(i[1]), qlit(i[2])))
+                    for i in doc['items'])
+    return '(%s, [%s], [%s])' % (qlit(doc['room']), its, '; '.join('(%d%%nat, %s)' % (k, blit(b)) for k, b in obs))
+
+
+def check_queue_tie(run, S, rng, thorough):
+    docs = [gen_queue_doc(rng) for _ in range(2000 if thorough else 400)]
+    holder = {}
+
+    def judge(d, o):
+        holder.setdefault('pairs', []).append((d, o))
+        return [], sum(1 for r in o['recs'] if r['kind'] == 'float')
+    S.add_monitor('inline-float-queue', 'render_floats', docs, judge,
+                  'one paragraph alone in its block, first line = 1..2 words then 2..4 floats (span/div, left/right, widths '
+                  'around the room left: room-30, room-10, room, room+10, block width, wider, small) with single words '
+                  'between, ltr/rtl; the order of the float_layout calls and which floats are laid out at the top of the '
+                  'line are read from the render and compared INSIDE Coq with model/C11Queue.v (bit 0) and with the '
+                  'source-order / sticky-queue spec (bit 1)', 'queue')
+
+    def finish():
+        kept, cases = [], []
+        for d, o in holder.get('pairs', []):
+            obs = queue_observed(d, o)
+            if obs is None or len(obs) != sum(1 for i in d['items'] if i[0] == 'F'):
+                run.fail('inline-float-queue: floats of the line not found in the render', {'stream': 'inline-float-queue',
+                         'fn': 'render_floats', 'doc': d}, signature='queue:floats-missing')
+                continue
+            kept.append((d, obs)); cases.append(coq_queue_case(d, obs))
+        try:
+            masks = common.eval_cases('c11queue', PRE_QUEUE, 'queue_case', cases, 'queue_judge')
+        except RuntimeError as exc:
+            run.oblige('corr:inline-float-queue', False, str(exc))
+            return
+        mism = [(d['html'], obs) for (d, obs), m in zip(kept, masks) if m & 1]
+        run.oblige('corr:inline-float-queue(model C11Queue vs render, call order and at-once/waiting)', not mism,
+                   'first disagreements: %s' % mism[:2])
+        for (d, obs), m in zip(kept, masks):
+            if m & 2:
+                run.fail('inline-float-queue: the floats of one line are not laid out in source order (observed calls '
+                         '(rank, at the line top?): %s): a later float can end above an earlier one (rule 5)' % (obs,),
+                         {'stream': 'inline-float-queue', 'fn': 'render_floats', 'doc': d, 'observed': obs},
+                         signature='queue:call-order')
+                break
+        run.count('inline-float-queue:coq', len(kept), [(tuple(map(tuple, d['items'])), d['direction']) for d, _ in kept])
+    return finish
+
+
 def check_float_monitor(S, rng, thorough):
     docs = [{'html': gen_float_doc(rng, inline_floats=False)} for _ in range(3000 if thorough else 600)]
     S.add_monitor('render-floats', 'render_floats', docs,
@@ -1222,10 +1335,17 @@ def check_rel_monitor(S, rng, thorough):
                   'ancestors-or-self and keep its size', 'relative')
 
 
+def judge_queue_replay(d, o):
+    obs = queue_observed(d, o)
+    m = common.eval_cases('c11queuereplay', PRE_QUEUE, 'queue_case', [coq_queue_case(d, obs)], 'queue_judge')[0]
+    return [('queue-judge-mask-%d' % m, None, obs, None)] if m else []
+
+
 MONITORS = {
     'render-floats': ('render_floats', lambda d, o: (judge_floats(o), 0), 'floats', None),
     'render-floats-inline': ('render_floats', lambda d, o: (judge_floats(o), 0), 'floats', None),
     'render-floats-midline': ('render_floats', lambda d, o: (judge_floats(o), 0), 'floats', None),
+    'inline-float-queue': ('render_floats', lambda d, o: (judge_queue_replay(d, o), 0), 'queue', None),
     'render-absolute': ('render_abs', lambda d, o: judge_abs(d, o), 'abs', abs_resign),
     'render-fixed': ('render_positions', lambda d, o: judge_fixed(d, o), 'fixed', None),
     'render-relative': ('render_relative_pair', lambda d, o: judge_rel(d, o), 'relative', None),
@@ -1247,7 +1367,7 @@ def check_corpus(S):
 def check(run):
     rng = random.Random(run.seed * 7919 + 11)
     thorough = run.tier == 'thorough'
-    common.prove(run, 'C11', ['model/C11Abs.vo', 'model/C11Float.vo'])
+    common.prove(run, 'C11', ['model/C11Abs.vo', 'model/C11Float.vo', 'model/C11Queue.vo'])
     run.trusted += ['Coq 8.16.1 kernel (coqc); vm_compute for the cases.v evaluation',
                     'hand-written Gallina models (model/C11Abs.v, model/C11Float.v): tied to /repo by exact-rational '
                     'direct-call correspondence on every run',
@@ -1268,7 +1388,9 @@ def check(run):
     check_abs_monitor(S, rng, thorough)
     check_fixed_monitor(S, rng, thorough)
     check_rel_monitor(S, rng, thorough)
+    finish_queue = check_queue_tie(run, S, rng, thorough)
     S.run(run)
+    finish_queue()
 
 
 DIRECT = {}
